@@ -120,7 +120,7 @@ CHECKS = {
  "C12": {
   "level": "proof",
   "technique": "Coq proofs T_enc/T_dec over the generator model for every accepted schema + the real plugin on fresh schemas (verdict, emitted programs via T-pico, compiles, behaviour vs protobuf-go, determinism)",
-  "text": "Proved in Coq: for every schema the generator model accepts, the programs it emits encode as the reference encoder (T_enc) and - with distinct valid numbers and modelled custom types - decode as the reference decoder on every input (T_dec); Always writers are selected for presence-carrying scalars and oneof members; optional enum / unsupported map / capture with a number >= 64 are explicit errors. That the REAL plugin is the generator model is decided per run: a fixed feature-coverage set (all 180 maps, recursion, optional x15 kinds, oneof x15 kinds+enum+message, two oneofs, capture x oneof, out-of-order and extreme field numbers, picoconv casts in 4 shapes, enums of 17/20 values, an unused well-known import) plus grammar-drawn schemas go through the plugin built from the working tree; its verdict and its emitted Encode/Decode programs (parsed back by T-pico) must equal the model's, the output must compile, 100 further plugin runs must be byte-identical, and the compiled code is driven like the checked-in types against the model and protobuf-go. Boundary schemas must be rejected by plugin and model alike.",
+  "text": "Proved in Coq: for every schema the generator model accepts, the programs it emits encode as the reference encoder (T_enc) and - with distinct valid numbers and modelled custom types - decode as the reference decoder on every input (T_dec), and Unmarshal(Marshal(m)) = m (C12_round_trip); Always writers are selected for presence-carrying scalars and oneof members; optional enum / unsupported map / capture with a number >= 64 are explicit errors. That the REAL plugin is the generator model is decided per run: a fixed feature-coverage set (all 180 maps, recursion, optional x15 kinds, oneof x15 kinds+enum+message, two oneofs, capture x oneof, out-of-order and extreme field numbers, picoconv casts in 4 shapes, enums of 17/20 values, an unused well-known import, oneof members held by value, nested declarations with clashing short names) plus grammar-drawn schemas (10 quick / 40 thorough; kind x label x option x oneof membership x numbering x nesting x casts) go through the plugin built from the working tree, with and without field_access=true; its verdict and its emitted Encode/Decode programs (parsed back by T-pico) must equal the model's, both outputs must compile and the second must be the first minus the accessors, every generated accessor must return the field it names (zero value on a nil receiver), about 170 further plugin runs must be byte-identical, and the compiled code is driven like the checked-in types against the model and protobuf-go. Boundary schemas must be rejected by plugin and model alike.",
   "note": "Trusted: Coq 8.16.1 kernel (vm_compute, no native_compute, no axioms: Print Assumptions recorded in evidence), extraction with ExtrOcamlBasic, the OCaml driver, the Go harness and generators, protobuf-go v1.31.0 as oracle. The tie between model and Go code is differential testing on the projection named in the level text, not proof.",
   "ref": "8 C12"
  },
